@@ -352,17 +352,21 @@ fn random_histories(ctx: &Ctx, rep: &mut Report, r: &mut Rng) {
         let mut open: Option<(u8, u8, Option<u8>)> = None;
         let mut ids: Vec<Option<u8>> = vec![None];
         let mut ctr = 0u64;
+        let pool = [*r.pick(&crate::gen::SPECIAL_MMSI) as u64, r.bits(30)];
+        // every fourth history is a conversation: mostly decoded unfragmented messages
+        let talk = hi % 4 == 3;
         while h.len() < len {
             ctr += 1;
-            if r.chance(2, 5) {
+            if r.chance(2, 5) && !talk {
                 h.push(inert_line(r, &open, ctr));
                 continue;
             }
-            if r.chance(1, 6) {
+            if r.chance(1, 6) || (talk && r.chance(3, 4)) {
                 // a decodable unfragmented message with decoding on: its decoded content makes
                 // any residue of earlier lines visible
+                // (station numbers from a pool of two per history: the messages refer to one another)
                 let br = r.pick(crate::gen::BRANCHES);
-                let (chars, fill) = crate::gen::gen_message(br, r).to_armor();
+                let (chars, fill) = super::c04::fresh_with_pool(br, r, &pool).to_armor();
                 h.push((nmea_ref::mk(1, 1, None, &chars, fill), true));
                 continue;
             }
